@@ -15,6 +15,9 @@ DOCS = [
 ALPHA = ["/", "~", "0", "1", "%", "2", "5", "a", "l", "-", " ", "+", "_", "b"]
 
 
+INDEX_LIKE = ["\u00b2", "\u0663", "\u0661", "\u2460", "\uff11", "\u0967", "1_0", "+1", "-0", "00", "0x1", "1e0", "1.0", " 1", "1 ", "\n1", "1\n", "", "-", "0b1", "\u00bd", "\u2082"]
+
+
 def all_locations(doc, prefix=()):
     yield prefix, doc
     if isinstance(doc, dict):
@@ -86,7 +89,21 @@ def search(job):
                 tried += 1
                 obs, exp = run(r, exceptions, doc, frag), ("value", val)
                 if not same(obs, exp):
-                    out.append({"kind": "F", "doc": doc, "fragment": frag, "expected": repr(exp), "observed": repr(obs)})
+                    out.append({"kind": "S" if obs[0] == "exception" else "F", "doc": doc, "fragment": frag, "expected": repr(exp), "observed": repr(obs)})
+    # index-like tokens at every array location (digits that are not ASCII decimal, signs, padding, separators)
+    for doc in DOCS:
+        for toks, val in all_locations(doc):
+            if not isinstance(val, (list, str)):
+                continue
+            for t in INDEX_LIKE:
+                ptr = to_pointer(toks + (t,))
+                for frag in ([ptr] if "%" not in ptr else []) + [quote(ptr, safe="/~")]:
+                    tried += 1
+                    obs, exp = run(r, exceptions, doc, frag), expected(doc, frag)
+                    if not same(obs, exp):
+                        out.append({"kind": "S" if obs[0] == "exception" else "F", "doc": doc, "fragment": frag, "expected": repr(exp), "observed": repr(obs)})
+                        if len(out) >= job.get("limit", 3):
+                            return {"failures": out[:job.get("limit", 3)], "tried": tried}
     # negative / arbitrary half: all fragments up to length L over the critical alphabet
     L = job.get("maxlen", 4)
     for n in range(0, L + 1):
@@ -98,7 +115,7 @@ def search(job):
                 tried += 1
                 obs, exp = run(r, exceptions, doc, frag), expected(doc, frag)
                 if not same(obs, exp):
-                    out.append({"kind": "F", "doc": doc, "fragment": frag, "expected": repr(exp), "observed": repr(obs)})
+                    out.append({"kind": "S" if obs[0] == "exception" else "F", "doc": doc, "fragment": frag, "expected": repr(exp), "observed": repr(obs)})
                     if len(out) >= job.get("limit", 3):
                         return {"failures": out[:job.get("limit", 3)], "tried": tried}
     return {"failures": out[:job.get("limit", 3)], "tried": tried}
